@@ -84,7 +84,13 @@ RULE = ("random regions of 1..40 cells (random subsets of a lattice, stored in r
         "Generator.shuffle, re-assignment through the setter), all evaluations again on the same objects (2 re-orderings quick, "
         "3 thorough), finally the synthetic catalogs are re-ordered in place (the list and the rows of each). "
         "A case is non-trivial when some permutation changes the stored order of distinguishable items (>= 2 distinct "
-        "events / catalogs / cells); distinct by generated input")
+        "events / catalogs / cells); distinct by generated input"
+        " Wave 5: every case draws a keyword configuration kept for all its re-orderings: T-test alpha 0.05/0.01/0.1 and "
+        "scale=True, W-test scale=True, MLL full_calculation=True, verbose=True, the random stream fixed by seed= / by the "
+        "caller seeding numpy's global generator with seed=None / by injected random_numbers (CL, S, M); a third of the "
+        "cases hand N / NBD-N / L / CL / binary-CL / Brier an observed catalog WITHOUT region (the test binds the "
+        "forecast's), also as a shared object in the in-place session; one (thorough: three) catalog with more than 2^16 "
+        "observed events per run")
 
 REL, ABS = 1e-9, 1e-12
 GRIDDED_SIM = ["poisson_L", "poisson_CL", "poisson_S", "poisson_M", "binary_S", "binary_CL", "brier"]
@@ -220,8 +226,17 @@ def gen_input(rng, tier, force=None):
         cell_perms[1] = sorted(range(nc), key=lambda i: (origins[i][0], origins[i][1]))   # lexicographically sorted cells
     return dict(shape=shape, dh=dh, origins=origins, mags=mags, dm=dm, rates1=rates1, rates2=rates2, kinds=[kind1, kind2],
                 events=events, cats=cats, ev_perms=ev_perms, cat_perms=cat_perms, cell_perms=cell_perms,
-                inplace=_inplace_steps(rng, nperm, big),
+                inplace=_inplace_steps(rng, nperm, big), kw=_gen_kw(rng),
                 seed=rng.randrange(0, 2 ** 31), nsim=rng.choice([5, 10, 20]), variance_factor=rng.choice([1.5, 3.0, 10.0]))
+
+
+def _gen_kw(rng):
+    """evaluation keywords of one case (the same for the base input and every re-ordering of it): every keyword of the
+    public evaluation functions takes each of its non-default values in a fair share of the cases"""
+    return dict(t_alpha=rng.choice([0.05, 0.05, 0.01, 0.1]), t_scale=rng.random() < 0.2, w_scale=rng.random() < 0.2,
+                sim_mode=rng.choice(["seed", "seed", "global-seed", "random_numbers"]),   # how the random stream is fixed
+                mll_full=rng.random() < 0.3, verbose=rng.random() < 0.3,
+                obs_region=rng.choice(["bound", "bound", "none"]))     # observed catalog with / without its own region (D40)
 
 
 def _gen_rates(rng, nc, nb, allow_zeros=True):
@@ -405,7 +420,7 @@ def _gen_input_qt(rng, tier, shape):
     return dict(shape=shape, qt=qt, dh=None, origins=[[b[0], b[1]] for b in boxes], mags=mags, dm=dm, rates1=rates1,
                 rates2=rates2, kinds=[kind1, kind2], events=events, cats=cats, adjacent=adjacent, ev_perms=ev_perms,
                 cat_perms=cat_perms, cell_perms=cell_perms, inplace=_inplace_steps(rng, nperm, big),
-                seed=rng.randrange(0, 2 ** 31), nsim=rng.choice([5, 10]), variance_factor=rng.choice([1.5, 3.0, 10.0]))
+                kw=_gen_kw(rng), seed=rng.randrange(0, 2 ** 31), nsim=rng.choice([5, 10]), variance_factor=rng.choice([1.5, 3.0, 10.0]))
 
 
 # ----------------------------------------------------------------------------- building pyCSEP objects
@@ -464,8 +479,8 @@ def _objects(inp, ev_perm=None, cat_perm=None, cell_perm=None, share=None):
         f1 = GriddedForecast(data=d1.copy(), region=region, magnitudes=mags, name="f1")
         f2 = GriddedForecast(data=d2.copy(), region=region, magnitudes=mags, name="f2")
 
-    def mk_cat(evs, cid=None):
-        return CSEPCatalog(data=_rows(evs), region=region, catalog_id=cid)
+    def mk_cat(evs, cid=None, with_region=True):
+        return CSEPCatalog(data=_rows(evs), region=region if with_region else None, catalog_id=cid)
 
     def mk_cf():
         cl = [mk_cat(c, k) for k, c in enumerate(cats)]
@@ -480,7 +495,8 @@ def _objects(inp, ev_perm=None, cat_perm=None, cell_perm=None, share=None):
         boxes = None
         ev_cells, cat_cells = [pi[e[6]] for e in events], [[pi[e[6]] for e in c] for c in cats]
         nc_eff = nc
-    return SimpleNamespace(region=region, catalog=mk_cat(events), mk_catalog=lambda: mk_cat(events), f1=f1, f2=f2, d1=d1,
+    return SimpleNamespace(region=region, catalog=mk_cat(events), mk_catalog=lambda: mk_cat(events),
+                           mk_catalog_nr=lambda: mk_cat(events, None, False), f1=f1, f2=f2, d1=d1,
                            d2=d2, mk_cf=mk_cf, sigma=sigma, pi=pi, nc=nc_eff, nb=len(inp["mags"]), events=events, cats=cats,
                            ev_cells=ev_cells, ev_bins=[e[7] for e in events], boxes=boxes, keys_ok=keys_ok,
                            located=all(c is not None for c in ev_cells) and all(c is not None for cc in cat_cells for c in cc),
@@ -549,28 +565,53 @@ def _evaluate(o, inp, names):
     from csep.core import catalog_evaluations as ce
     seed, nsim = inp["seed"], inp["nsim"]
     safe = _binary_safe(o, inp)
-    var = None
+    kw = inp.get("kw") or {}
+    mode = kw.get("sim_mode", "seed")
+    vb = bool(kw.get("verbose", False))
+    n_obs = len(o.events)
+
+    def obs(name):
+        # D40: L, CL, binary CL and Brier bind the forecast's region to an observed catalog that has none
+        if kw.get("obs_region") == "none" and name in ("poisson_N", "nbd_N", "poisson_L", "poisson_CL", "binary_CL", "brier"):
+            return o.mk_catalog_nr()
+        return o.mk_catalog()
+
+    def sim(f, name, *a):
+        """a simulation-based test with the random stream fixed in one of the three documented ways"""
+        if mode == "global-seed":                         # seed=None: the caller seeded numpy's global generator
+            numpy.random.seed(seed % (2 ** 32))
+            return _call(f, *a, num_simulations=nsim, verbose=vb)
+        if mode == "random_numbers" and name in ("poisson_CL", "poisson_S", "poisson_M") and n_obs > 0:
+            rn = numpy.random.RandomState(seed % (2 ** 32)).random_sample((nsim, n_obs))
+            return _call(f, *a, num_simulations=nsim, seed=seed, random_numbers=rn, verbose=vb)
+        return _call(f, *a, num_simulations=nsim, seed=seed, verbose=vb)
+
+    def seeded_cat(f, **k):
+        if mode == "global-seed":
+            numpy.random.seed(seed % (2 ** 32))
+            return _call(f, o.mk_cf(), o.mk_catalog(), verbose=vb, **k)
+        return _call(f, o.mk_cf(), o.mk_catalog(), seed=seed, verbose=vb, **k)
+    ta, ts, ws = kw.get("t_alpha", 0.05), bool(kw.get("t_scale", False)), bool(kw.get("w_scale", False))
     table = {
-        "poisson_N": lambda: _call(pe.number_test, o.f1, o.mk_catalog()),
-        "poisson_L": lambda: _call(pe.likelihood_test, o.f1, o.mk_catalog(), num_simulations=nsim, seed=seed),
-        "poisson_CL": lambda: _call(pe.conditional_likelihood_test, o.f1, o.mk_catalog(), num_simulations=nsim, seed=seed),
-        "poisson_S": lambda: _call(pe.spatial_test, o.f1, o.mk_catalog(), num_simulations=nsim, seed=seed),
-        "poisson_M": lambda: _call(pe.magnitude_test, o.f1, o.mk_catalog(), num_simulations=nsim, seed=seed),
-        "nbd_N": lambda: _call(be.negative_binomial_number_test, o.f1, o.mk_catalog(),
+        "poisson_N": lambda: _call(pe.number_test, o.f1, obs("poisson_N")),
+        "poisson_L": lambda: sim(pe.likelihood_test, "poisson_L", o.f1, obs("poisson_L")),
+        "poisson_CL": lambda: sim(pe.conditional_likelihood_test, "poisson_CL", o.f1, obs("poisson_CL")),
+        "poisson_S": lambda: sim(pe.spatial_test, "poisson_S", o.f1, o.mk_catalog()),
+        "poisson_M": lambda: sim(pe.magnitude_test, "poisson_M", o.f1, o.mk_catalog()),
+        "nbd_N": lambda: _call(be.negative_binomial_number_test, o.f1, obs("nbd_N"),
                                inp["variance_factor"] * float(numpy.sum(numpy.array(inp["rates1"]))) + 1.0),
-        "paired_T": lambda: _call(pe.paired_t_test, o.f1, o.f2, o.mk_catalog()),
-        "W": lambda: _call(pe.w_test, o.f1, o.f2, o.mk_catalog()),
-        "binary_S": lambda: _call(be.binary_spatial_test, o.f1, o.mk_catalog(), num_simulations=nsim, seed=seed),
-        "binary_CL": lambda: _call(be.binary_conditional_likelihood_test, o.f1, o.mk_catalog(), num_simulations=nsim,
-                                   seed=seed),
-        "binary_T": lambda: _call(be.binary_paired_t_test, o.f1, o.f2, o.mk_catalog()),
-        "brier": lambda: _call(br.brier_score_test, o.f1, o.mk_catalog(), num_simulations=nsim, seed=seed),
-        "cat_N": lambda: _call(ce.number_test, o.mk_cf(), o.mk_catalog(), verbose=False),
-        "cat_S": lambda: _call(ce.spatial_test, o.mk_cf(), o.mk_catalog(), verbose=False),
-        "cat_M": lambda: _call(ce.magnitude_test, o.mk_cf(), o.mk_catalog(), verbose=False),
-        "cat_PL": lambda: _call(ce.pseudolikelihood_test, o.mk_cf(), o.mk_catalog(), verbose=False),
-        "cat_resampled_M": lambda: _call(ce.resampled_magnitude_test, o.mk_cf(), o.mk_catalog(), seed=seed),
-        "cat_MLL": lambda: _call(ce.MLL_magnitude_test, o.mk_cf(), o.mk_catalog(), seed=seed),
+        "paired_T": lambda: _call(pe.paired_t_test, o.f1, o.f2, o.mk_catalog(), alpha=ta, scale=ts),
+        "W": lambda: _call(pe.w_test, o.f1, o.f2, o.mk_catalog(), scale=ws),
+        "binary_S": lambda: sim(be.binary_spatial_test, "binary_S", o.f1, o.mk_catalog()),
+        "binary_CL": lambda: sim(be.binary_conditional_likelihood_test, "binary_CL", o.f1, obs("binary_CL")),
+        "binary_T": lambda: _call(be.binary_paired_t_test, o.f1, o.f2, o.mk_catalog(), alpha=ta, scale=ts),
+        "brier": lambda: sim(br.brier_score_test, "brier", o.f1, obs("brier")),
+        "cat_N": lambda: _call(ce.number_test, o.mk_cf(), o.mk_catalog(), verbose=vb),
+        "cat_S": lambda: _call(ce.spatial_test, o.mk_cf(), o.mk_catalog(), verbose=vb),
+        "cat_M": lambda: _call(ce.magnitude_test, o.mk_cf(), o.mk_catalog(), verbose=vb),
+        "cat_PL": lambda: _call(ce.pseudolikelihood_test, o.mk_cf(), o.mk_catalog(), verbose=vb),
+        "cat_resampled_M": lambda: seeded_cat(ce.resampled_magnitude_test),
+        "cat_MLL": lambda: seeded_cat(ce.MLL_magnitude_test, full_calculation=bool(kw.get("mll_full", False))),
     }
     out = {}
     for n in names:
@@ -765,7 +806,7 @@ class _Corr:
     @_guard
     def tw(self, o, tag, outcomes):
         n = len(o.ev_cells)
-        if n == 0:
+        if n == 0 or n > 5000:       # the model's rank statistics are quadratic in the number of events
             return
         r1 = [o.d1[c, b] for c, b in zip(o.ev_cells, o.ev_bins)]
         r2 = [o.d2[c, b] for c, b in zip(o.ev_cells, o.ev_bins)]
@@ -782,11 +823,12 @@ class _Corr:
         if min(min(r1), min(r2)) <= 0.0:
             return
         args = f"{','.join(_fbits(v) for v in r1)} {','.join(_fbits(v) for v in r2)} {_fbits(n1)} {_fbits(n2)}"
-        t = outcomes.get("paired_T")
+        kw = (self.case.get("inp") or {}).get("kw") or {}
+        t = outcomes.get("paired_T") if not kw.get("t_scale") else None       # scaled rates: oracle only
         if t and "obs" in t and n >= 2:
             i = self.drv.ask("c20_ttest " + args)
             self.todo.append(("ttest", tag, i, (t["obs"][0], t["q"][0]), o, None))
-        w = outcomes.get("W")
+        w = outcomes.get("W") if not kw.get("w_scale") else None
         if w and "obs" in w:
             i = self.drv.ask("c20_wtest " + args)
             self.todo.append(("wtest", tag, i, w["obs"][0], o, None))
@@ -948,7 +990,37 @@ GRIDDED = [n for n in ALL if not n.startswith("cat_")]
 CATALOG = [n for n in ALL if n.startswith("cat_")]
 
 
+def _names(inp, names):
+    only = inp.get("only")
+    return [n for n in names if only is None or n in only]
+
+
+def _expand_tile(inp):
+    """a long catalog described compactly: the base events repeated (new ids, new origin times) up to `tile` events, with
+    permutations derived from the case's own seed"""
+    import random
+    n0, n = len(inp["events"]), inp["tile"]
+    r = random.Random(inp["seed"])
+    events = []
+    for k in range(n):
+        e = list(inp["events"][k % n0])
+        e[0], e[1] = k, e[1] + 1000 * (k // n0)
+        events.append(e)
+    p1 = list(range(n)); r.shuffle(p1)
+    p2 = sorted(range(n), key=lambda i: events[i][1])
+    p3 = list(range(n))[::-1]
+    return dict(inp, events=events, ev_perms=[p1, p2, p3][:max(1, len(inp["ev_perms"]))], tile=None)
+
+
 def check_input(run, inp, rng, tag="gen"):
+    compact = inp
+    if inp.get("tile"):
+        inp = _expand_tile(inp)
+        run.count("events:more-than-2^16")
+    ALL_, CATALOG_ = _names(inp, ALL), _names(inp, CATALOG)
+    kw = inp.get("kw") or {}
+    for key in sorted(kw):
+        run.count(f"kw:{key}={kw[key]}")
     summary = dict(tag=tag, shape=inp["shape"], cells=len(inp["origins"]), bins=len(inp["mags"]), events=len(inp["events"]),
                    n_cat=len(inp["cats"]), kinds=inp["kinds"], seed=inp["seed"])
     distinct_ev = len({(e[6], e[7]) for e in inp["events"]}) >= 2
@@ -957,10 +1029,10 @@ def check_input(run, inp, rng, tag="gen"):
     run.count(f"shape:{inp['shape']}")
     run.count(f"events:{'0' if not inp['events'] else ('1-3' if len(inp['events']) <= 3 else ('4-30' if len(inp['events']) <= 30 else '31+'))}")
     run.count(f"rates:{inp['kinds'][0]}")
-    full = dict(summary, inp=inp)
+    full = dict(summary, inp=compact)
     corr = _Corr(run, full)
     base_o = _objects(inp)
-    base = _evaluate(base_o, inp, ALL)
+    base = _evaluate(base_o, inp, ALL_)
     for n, oc in base.items():
         run.count(f"outcome:{n}:" + ("exc:" + oc["exc"] if "exc" in oc else ("none" if "none" in oc else
                                      ("skipped:" + oc["skipped"] if "skipped" in oc else oc["status"]))))
@@ -994,7 +1066,7 @@ def check_input(run, inp, rng, tag="gen"):
             corr.simulate(base_o, "orig", rng)
             corr.simbinary(base_o, "orig", rng)
     nvar = 0
-    ncalls = len(ALL)
+    ncalls = len(ALL_)
 
     def judge(kind, k, names, res, how=None):
         nonlocal ncalls
@@ -1015,7 +1087,7 @@ def check_input(run, inp, rng, tag="gen"):
         return o, res
     for k, p in enumerate(inp["ev_perms"]):
         # odd variants re-use the region and forecast OBJECTS of the base input (only the catalog objects are new)
-        o, res = variant("events", k, ALL, ev_perm=p, share=base_o if k % 2 else None)
+        o, res = variant("events", k, ALL_, ev_perm=p, share=base_o if k % 2 else None)
         run.count("events-variant:" + ("shared-region-and-forecasts" if k % 2 else "fresh-objects"))
         if sane(o, f"events{k}"):
             corr.counts(o, f"events{k}")
@@ -1025,11 +1097,11 @@ def check_input(run, inp, rng, tag="gen"):
                 corr.tw(o, f"events{k}", res)
                 corr.concrete(o, f"events{k}", res)
     for k, p in enumerate(inp["cat_perms"]):
-        o, res = variant("catalogs", k, CATALOG, cat_perm=p, share=base_o if k % 2 else None)
+        o, res = variant("catalogs", k, CATALOG_, cat_perm=p, share=base_o if k % 2 else None)
         if sane(o, f"cats{k}"):
             corr.mean(o, f"cats{k}")
     for k, p in enumerate(inp["cell_perms"]):
-        o, res = variant("cells", k, ALL, cell_perm=p)
+        o, res = variant("cells", k, ALL_, cell_perm=p)
         if sane(o, f"cells{k}"):
             corr.counts(o, f"cells{k}")
             corr.mean(o, f"cells{k}")
@@ -1038,7 +1110,8 @@ def check_input(run, inp, rng, tag="gen"):
                 corr.binary(o, f"cells{k}", res)
                 corr.concrete(o, f"cells{k}", res)
                 corr.normll(o, f"cells{k}", res)
-    nvar += _inplace_session(run, inp, base_o, base, corr, judge)
+    if not inp.get("no_session"):
+        nvar += _inplace_session(run, inp, base_o, base, corr, judge)
     corr.finish()
     run.extra["variants_evaluated"] = run.extra.get("variants_evaluated", 0) + nvar + 1
     run.evaluations += nvar           # every permuted variant is an evaluation of the property's predicate
@@ -1071,9 +1144,12 @@ def _inplace_session(run, inp, base_o, base, corr, judge):
     ids = [str(e[0]) for e in inp["events"]]
     o = SimpleNamespace(**vars(base_o))
     o.mk_catalog, o.catalog = (lambda: cat), cat
+    cat_nr = base_o.mk_catalog_nr()          # shared too: the first D40 evaluation binds the forecast's region to it
+    o.mk_catalog_nr = lambda: cat_nr
     # a pass over a CatalogForecast that ends in an exception leaves its cursor mid-pass (known finding D27 of property
     # C13, not a storage-order matter): the forecast OBJECT is re-used only where no catalog-based evaluation raises
-    share_cf = not any("exc" in base[x] for x in CATALOG)
+    ALL_, CATALOG_ = _names(inp, ALL), _names(inp, CATALOG)
+    share_cf = not any("exc" in base[x] for x in CATALOG_)
     run.count("inplace:catalog-forecast-object-" + ("shared" if share_cf else "fresh (D27)"))
     if share_cf:
         o.mk_cf = lambda: cf
@@ -1085,7 +1161,7 @@ def _inplace_session(run, inp, base_o, base, corr, judge):
         rounds += 1
         judge("inplace", k, names, res, how)
         return res
-    evaluate(-1, "first use of the shared objects", ALL)
+    evaluate(-1, "first use of the shared objects", ALL_)
     steps = inp.get("inplace") or [["slice-assign", 0], ["sort-time", 0]]
     for k, (how, pidx) in enumerate(steps):
         if n == 0:
@@ -1093,6 +1169,7 @@ def _inplace_session(run, inp, base_o, base, corr, judge):
         perm = inp["ev_perms"][pidx % len(inp["ev_perms"])]
         try:
             _reorder_in_place(cat, how, perm, inp["seed"] + k)
+            _reorder_in_place(cat_nr, how, perm, inp["seed"] + k)
             now = [v.decode() if isinstance(v, bytes) else str(v) for v in cat.get_event_ids()]
         except Exception as e:                    # numpy refusing the operation is not the property's business
             run.count(f"inplace-unavailable:{how}:{type(e).__name__}")
@@ -1103,7 +1180,7 @@ def _inplace_session(run, inp, base_o, base, corr, judge):
         o.events = [inp["events"][i] for i in order]
         o.ev_cells, o.ev_bins = [base_o.ev_cells[i] for i in order], [base_o.ev_bins[i] for i in order]
         run.count(f"inplace:{how}" + (":order-unchanged" if order == list(range(n)) and k == 0 else ""))
-        evaluate(k, how, ALL if k == 0 else [x for x in ALL if x not in CATALOG_SEEDED])
+        evaluate(k, how, ALL_ if k == 0 else [x for x in ALL_ if x not in CATALOG_SEEDED])
         if base_o.located:
             corr.counts(o, f"events-inplace{k}", None, cat)
             if "qt" in inp:
@@ -1115,10 +1192,10 @@ def _inplace_session(run, inp, base_o, base, corr, judge):
         for j, c in enumerate(cf.catalogs):
             if c.event_count >= 2:
                 c.catalog[:] = c.catalog[::-1].copy()
-        res = _evaluate(o, inp, CATALOG)
+        res = _evaluate(o, inp, CATALOG_)
         rounds += 1
         # the observed rows are permuted too by now, the synthetic catalogs re-ordered: multiset comparison
-        judge("catalogs", -1, CATALOG, res)
+        judge("catalogs", -1, CATALOG_, res)
         run.count("inplace:synthetic-catalogs")
     return rounds
 
@@ -1149,6 +1226,16 @@ def run(run, rng, tier):
     while k < ncases and (time.time() - t0 < budget or k < len(shapes)):
         inp = gen_input(rng, tier, force=shapes[k] if k < len(shapes) else None)
         check_input(run, inp, rng)
+        k += 1
+    # a catalog with more than 2^16 events (and not a multiple of 2^16), a subset of the evaluations, no session
+    for _ in range(1 if tier == "quick" else 3):
+        inp = gen_input(rng, tier, force=rng.choice(["rect", "row"]))
+        while not inp["events"]:
+            inp = gen_input(rng, tier, force="rect")
+        inp = dict(inp, tile=65536 + rng.randint(1, 999), ev_perms=inp["ev_perms"][:1], cat_perms=[], cell_perms=inp["cell_perms"][:1],
+                   inplace=[], no_session=True, nsim=5,
+                   only=["poisson_N", "poisson_L", "poisson_CL", "poisson_S", "poisson_M", "nbd_N", "paired_T", "W", "cat_N"])
+        check_input(run, inp, rng, tag="long-catalog")
         k += 1
     run.extra["generated_cases"] = k
 
